@@ -11,7 +11,7 @@ fn main() {
     let a = args();
     let mut s = Session::new(&a, "C02", COQ_HEADER, COQ_CASE_TY, COQ_CHECKER);
     s.shard_size = 120;
-    s.rule = "corpus (old witness D21, bottom-alignment println 951c29f, slot reuse, every insert variant, zombie reaped behind the head) + random histories over one MultiProgress on a recording terminal with 1..5 bars: add/insert/insert_from_back/insert_before/insert_after/remove/set_alignment/drop in every order, tick/inc/set_position/set_message/set_length/reset/force_draw, finish*/abandon*/finish_using_style, println (multi and member), suspend, clear; every ProgressFinish; widths 1..40; both alignments; gaps >= 1 ms; + 60 cases with an EXHAUSTED 1/20 Hz refresh limiter in which finished members are updated again and dropped (every draw of a finished bar must be painted: classes finished-bar-update-not-painted/-stale); + 3-thread stress runs judged by the frame oracle only + the re-add family (add/insert* of a bar that is already a member, documented as no effect; real API, order oracle only) + a two-thread race insert_after(&a, x) || remove(&a) (outcomes counted); non-trivial = at least 2 bars added and 5 ops; distinct = distinct case text".into();
+    s.rule = "corpus (old witness D21, bottom-alignment println 951c29f, slot reuse, every insert variant, zombie reaped behind the head) + random histories over one MultiProgress on a recording terminal with 1..5 bars: add/insert/insert_from_back/insert_before/insert_after/remove/set_alignment/drop in every order, tick/inc/set_position/set_message/set_length/reset/force_draw, finish*/abandon*/finish_using_style, println (multi and member), suspend, clear; every ProgressFinish; widths 1..40; both alignments; gaps >= 1 ms; + 60 cases with an EXHAUSTED 1/20 Hz refresh limiter in which finished members are updated again and dropped (every draw of a finished bar must be painted: classes finished-bar-update-not-painted/-stale); + real-thread stress runs (even: one updater thread per bar, odd: TWO updater threads per bar) judged by the frame oracle only + the re-add family (add/insert* of a bar that is already a member, documented as no effect; real API, order oracle only) + a two-thread race insert_after(&a, x) || remove(&a) (outcomes counted); non-trivial = at least 2 bars added and 5 ops; distinct = distinct case text".into();
     let mut r = Rng::new(a.seed);
     let cfg = GenCfg::default_multi();
     let n = if a.thorough { 6000 } else if a.extended { 3000 } else { 500 };
@@ -180,31 +180,57 @@ enum SOp {
     After(usize, usize),
     Before(usize, usize),
     Remove(usize),
+    Drop(usize),
 }
 
-/// the documented list semantics: a bar that is already a member is left where it is
+/// the documented list semantics: a bar that is already a member is left where it is.  Drop follows
+/// the INTERPRETATION I6 of docs/C02.md (third audit, finding 5): a dropped bar that is not the first
+/// of the list stays in the list - invisible if it finished with finish_and_clear, and COUNTED by the
+/// index of insert / insert_from_back - until it is the first bar and a draw is painted (remove and
+/// the finishing draw of a drop paint; so do the ticks at the end).
 fn readd_spec(script: &[SOp]) -> (Vec<usize>, bool) {
-    let mut ord: Vec<usize> = vec![];
+    let mut ord: Vec<(usize, bool)> = vec![]; // (bar, dropped)
     let mut readd = false;
+    fn reap(ord: &mut Vec<(usize, bool)>) {
+        while ord.first().map_or(false, |x| x.1) {
+            ord.remove(0);
+        }
+    }
     for op in script {
         let (b, pos): (usize, Option<usize>) = match op {
             SOp::Add(b) => (*b, Some(ord.len())),
             SOp::Insert(i, b) => (*b, Some((*i).min(ord.len()))),
             SOp::FromBack(i, b) => (*b, Some(ord.len().saturating_sub(*i))),
-            SOp::After(r, b) => (*b, ord.iter().position(|x| x == r).map(|p| p + 1)),
-            SOp::Before(r, b) => (*b, ord.iter().position(|x| x == r)),
+            SOp::After(r, b) => (*b, ord.iter().position(|x| x.0 == *r && !x.1).map(|p| p + 1)),
+            SOp::Before(r, b) => (*b, ord.iter().position(|x| x.0 == *r && !x.1)),
             SOp::Remove(b) => {
-                ord.retain(|x| x != b);
+                if ord.iter().any(|x| x.0 == *b && !x.1) {
+                    ord.retain(|x| !(x.0 == *b && !x.1));
+                    reap(&mut ord); // remove redraws
+                }
+                continue;
+            }
+            SOp::Drop(b) => {
+                if let Some(p) = ord.iter().position(|x| x.0 == *b && !x.1) {
+                    reap(&mut ord); // the finishing draw of the drop is forced and painted
+                    let p = ord.iter().position(|x| x.0 == *b && !x.1).unwrap_or(p);
+                    if p == 0 {
+                        ord.remove(0); // mark_zombie at the head reaps at once
+                    } else {
+                        ord[p].1 = true;
+                    }
+                }
                 continue;
             }
         };
-        if ord.contains(&b) {
+        if ord.iter().any(|x| x.0 == b && !x.1) {
             readd = true;
         } else if let Some(p) = pos {
-            ord.insert(p, b);
+            ord.insert(p, (b, false));
         }
     }
-    (ord, readd)
+    reap(&mut ord); // the ticks at the end paint
+    (ord.iter().filter(|x| !x.1).map(|x| x.0).collect(), readd)
 }
 
 fn readd_corpus() -> Vec<Vec<SOp>> {
@@ -215,6 +241,11 @@ fn readd_corpus() -> Vec<Vec<SOp>> {
         vec![SOp::Add(0), SOp::Add(1), SOp::Insert(0, 1), SOp::FromBack(1, 2)],
         vec![SOp::Add(0), SOp::Add(1), SOp::After(1, 0), SOp::Insert(1, 2)],
         vec![SOp::Add(0), SOp::Add(1), SOp::Before(0, 0), SOp::Insert(1, 2)],
+        // third audit, finding 5 / interpretation I6: A B C; drop B (finish_and_clear: invisible, not the
+        // head: stays in the list); insert(2, D) counts it: A D C
+        vec![SOp::Add(0), SOp::Add(1), SOp::Add(2), SOp::Drop(1), SOp::Insert(2, 3)],
+        // ... while a dropped HEAD leaves at once: drop A; insert(1, D): B D C
+        vec![SOp::Add(0), SOp::Add(1), SOp::Add(2), SOp::Drop(0), SOp::Insert(1, 3)],
         // controls without a re-add (remove, then add again is a genuine add)
         vec![SOp::Add(0), SOp::Add(1), SOp::Remove(0), SOp::Add(0), SOp::Insert(1, 2)],
         vec![SOp::Add(0), SOp::Insert(0, 1), SOp::FromBack(1, 2), SOp::After(1, 3), SOp::Remove(2), SOp::Before(0, 2)],
@@ -224,16 +255,27 @@ fn readd_corpus() -> Vec<Vec<SOp>> {
 fn gen_readd_script(r: &mut Rng) -> Vec<SOp> {
     let n = r.range(3, 9) as usize;
     let mut members: Vec<usize> = vec![];
+    let mut dropped: Vec<usize> = vec![];
     let mut v = vec![];
     for _ in 0..n {
-        let free: Vec<usize> = (0..4).filter(|b| !members.contains(b)).collect();
-        let b = if !free.is_empty() && r.chance(2, 3) { *r.pick(&free) } else { r.below(4) as usize };
-        let op = match r.below(8) {
+        let usable: Vec<usize> = (0..6).filter(|b| !dropped.contains(b)).collect();
+        let free: Vec<usize> = usable.iter().copied().filter(|b| !members.contains(b)).collect();
+        if usable.is_empty() {
+            break;
+        }
+        let b = if !free.is_empty() && r.chance(2, 3) { *r.pick(&free) } else { *r.pick(&usable) };
+        let op = match r.below(9) {
             0..=2 => SOp::Add(b),
             3 => SOp::Insert(r.below(5) as usize, b),
             4 => SOp::FromBack(r.below(5) as usize, b),
             5 if !members.is_empty() => SOp::After(*r.pick(&members), b),
             6 if !members.is_empty() => SOp::Before(*r.pick(&members), b),
+            7 if members.contains(&b) => {
+                members.retain(|x| *x != b);
+                dropped.push(b);
+                v.push(SOp::Drop(b));
+                continue;
+            }
             _ if members.contains(&b) => {
                 members.retain(|x| *x != b);
                 v.push(SOp::Remove(b));
@@ -254,7 +296,7 @@ fn gen_readd_script(r: &mut Rng) -> Vec<SOp> {
 /// bars with the documented list semantics.
 fn readd_case(s: &mut Session, script: &[SOp]) {
     use indicatif::verif_clock as vc;
-    const IDS: [&str; 4] = ["A", "B", "C", "D"];
+    const IDS: [&str; 6] = ["A", "B", "C", "D", "E", "F"];
     let (want, readd) = readd_spec(script);
     let desc = format!("re-add family: {script:?} (re-add of a member: {readd})");
     let w = 20u16;
@@ -263,26 +305,28 @@ fn readd_case(s: &mut Session, script: &[SOp]) {
     vc::set_auto_step_ns(0);
     let res = catch(|| {
         let mp = MultiProgress::with_draw_target(ProgressDrawTarget::term_like(Box::new(spy.clone())));
-        let bars: Vec<ProgressBar> = IDS
+        let mut bars: Vec<Option<ProgressBar>> = IDS
             .iter()
             .map(|id| {
                 let pb = ProgressBar::with_draw_target(Some(10), ProgressDrawTarget::hidden());
                 pb.set_style(ProgressStyle::with_template(&format!("{id}{{pos}}")).unwrap());
-                pb
+                Some(pb)
             })
             .collect();
         for op in script {
             vc::advance_clock_ns(100_000_000);
+            let h = |b: &usize| bars[*b].clone().expect("the script uses a dropped bar");
             match op {
-                SOp::Add(b) => drop(mp.add(bars[*b].clone())),
-                SOp::Insert(i, b) => drop(mp.insert(*i, bars[*b].clone())),
-                SOp::FromBack(i, b) => drop(mp.insert_from_back(*i, bars[*b].clone())),
-                SOp::After(rf, b) => drop(mp.insert_after(&bars[*rf], bars[*b].clone())),
-                SOp::Before(rf, b) => drop(mp.insert_before(&bars[*rf], bars[*b].clone())),
-                SOp::Remove(b) => mp.remove(&bars[*b]),
+                SOp::Add(b) => drop(mp.add(h(b))),
+                SOp::Insert(i, b) => drop(mp.insert(*i, h(b))),
+                SOp::FromBack(i, b) => drop(mp.insert_from_back(*i, h(b))),
+                SOp::After(rf, b) => drop(mp.insert_after(&h(rf), h(b))),
+                SOp::Before(rf, b) => drop(mp.insert_before(&h(rf), h(b))),
+                SOp::Remove(b) => mp.remove(&h(b)),
+                SOp::Drop(b) => drop(bars[*b].take()), // the last handle: finish_and_clear (default), then mark_zombie
             }
         }
-        for pb in &bars {
+        for pb in bars.iter().flatten() {
             vc::advance_clock_ns(100_000_000);
             pb.tick();
         }
@@ -560,8 +604,11 @@ fn corpus() -> Vec<Case> {
     ]
 }
 
-/// Three real threads update three member bars concurrently (inc + set_message), a fourth thread
-/// prints log lines.  Every painted frame is reconstructed from the recorded TermLike calls; per
+/// Real threads update three member bars concurrently (inc, then finish), one more thread prints
+/// log lines.  Even runs: ONE updater thread per bar (the hypothesis of C02_interleaving); odd
+/// runs: TWO updater threads per bar on clones of the bar (what ParallelProgressIterator does) -
+/// outside AtomicExec (the position store and the position limiter run before the bar mutex:
+/// C02_pos_sections_two_writers_refuted), the property's clause must hold all the same.  Every painted frame is reconstructed from the recorded TermLike calls; per
 /// bar the shown position must be a value the bar had (0..=N), never smaller than the one shown
 /// before, the bars appear in logical order below the log lines, and the last frame shows the
 /// final positions.  Not compared with the model (schedules are not replayable).
@@ -572,8 +619,10 @@ fn thread_stress(s: &mut Session, r: &mut Rng, k: u64) {
     let w = 30u16;
     let spy = Spy::new(w, 200);
     let bottom = k % 3 == 2;
-    let n_inc: u64 = 20 + r.below(60);
-    let desc = format!("thread-stress run {k}: 3 updater threads x {n_inc} inc, 1 println thread, bottom={bottom}");
+    let per_thread: u64 = 20 + r.below(60);
+    let writers: u64 = if k % 2 == 1 { 2 } else { 1 };
+    let n_inc: u64 = per_thread * writers; // final position of every bar
+    let desc = format!("thread-stress run {k}: 3 bars x {writers} updater thread(s) x {per_thread} inc, 1 println thread, bottom={bottom}");
     let res = catch(|| {
         let mp = MultiProgress::with_draw_target(ProgressDrawTarget::term_like(Box::new(spy.clone())));
         if bottom {
@@ -588,13 +637,19 @@ fn thread_stress(s: &mut Session, r: &mut Rng, k: u64) {
             })
             .collect();
         let mut hs = vec![];
-        for pb in bars.iter().cloned() {
-            hs.push(std::thread::spawn(move || {
-                for _ in 0..n_inc {
-                    pb.inc(1);
-                }
-                pb.finish();
-            }));
+        let mut updaters = vec![];
+        for pb in bars.iter() {
+            for _ in 0..writers {
+                let pb = pb.clone();
+                updaters.push(std::thread::spawn(move || {
+                    for _ in 0..per_thread {
+                        pb.inc(1);
+                    }
+                    if writers == 1 {
+                        pb.finish();
+                    }
+                }));
+            }
         }
         let mp2 = mp.clone();
         hs.push(std::thread::spawn(move || {
@@ -602,6 +657,15 @@ fn thread_stress(s: &mut Session, r: &mut Rng, k: u64) {
                 let _ = mp2.println(format!("log{i}"));
             }
         }));
+        for h in updaters {
+            h.join().map_err(|_| "thread panicked".to_string())?;
+        }
+        if writers == 2 {
+            // all writers of a bar are done: its position is final; finish paints it
+            for pb in &bars {
+                pb.finish();
+            }
+        }
         for h in hs {
             h.join().map_err(|_| "thread panicked".to_string())?;
         }
@@ -610,6 +674,9 @@ fn thread_stress(s: &mut Session, r: &mut Rng, k: u64) {
     });
     vc::set_auto_step_ns(0);
     s.count("thread_stress_runs");
+    if writers == 2 {
+        s.count("thread_stress_runs_two_writers_per_bar");
+    }
     match res {
         Err(e) | Ok(Err(e)) => {
             s.fail("thread-stress-panic", e, desc.clone());
